@@ -396,6 +396,14 @@ pub fn c08(out: &mut Vec<String>, rng: &mut Rng, tier: &str) {
         let t32: Vec<String> = toks.iter().map(|t| if t.starts_with('x') && t.len() == 17 { (f64::from_bits(u64::from_str_radix(&t[1..], 16).unwrap()) as f32).enc() } else { t.clone() }).collect();
         out.push(format!("C08 kahan g {} => {}", t32.join(" "), kahan_prog::<f32>(&t32)));
     }
+    // long streams of one sign, negative as well as positive (running total dominated by what was added before)
+    for (n, id, param) in [(100_000u64, 1u64, -1.1f64), (100_000, 0, -0.1), (300_000, 1, -3.7), (100_000, 1, 2.3)] {
+        for op in ["g", "H"] {
+            let toks: Vec<String> = vec!["E".into(), op.into(), format!("{}", id), format!("{}", rng.next() >> 1), param.enc(), format!("{}", n), "q".into()];
+            out.push(format!("C08 kahan g {} => {}", toks.join(" "), kahan_prog::<f32>(&toks)));
+            out.push(format!("C08 kahan f {} => {}", toks.join(" "), kahan_prog::<f64>(&toks)));
+        }
+    }
     // one register fed alternately by value and by (one-element) register
     for (n, id, param) in [(20_000u64, 1u64, 1.1f64), (1_000_000, 1, 1.1), (1_000_000, 2, 1.0), (200_000, 0, 0.1)] {
         if tier != "thorough" && n > 200_000 && id == 2 {
